@@ -50,6 +50,15 @@ theorem C12_text_defect_witness : ∃ s : Str, decodeText .universal (encodeText
 
 /-! ## read after write through the staged write -/
 
+/-- **The part of C12 that is NOT proved** (why the claim is "proof, partial"): that the concrete serialisers of
+    CPython — `json.dump`/`json.load` (as a `TextSer`, with no carriage return in the output), `pickle.dump`/`pickle.load`
+    (as a `Codec`) and the text codecs utf-8 / utf-16 / latin-1 / the locale's (as an `Encoding`; latin-1 IS proved:
+    `C12_latin1_roundtrip`) — round-trip on their domains.  The theorems below take these as hypotheses; the
+    harness validates them on sampled values only (and found the limit of json's domain: an escaped surrogate pair
+    is read back as one astral character). -/
+def C12_trusted_codecs {V W : Type} (jsonSer : TextSer V) (pickle : Codec W) (e : Encoding) : Prop :=
+  jsonSer.Roundtrip ∧ jsonSer.NoCR ∧ pickle.Roundtrip ∧ e.Roundtrip
+
 section
 variable {α : Type} [DecidableEq α] {V : Type}
 
